@@ -691,7 +691,10 @@ class Interp:
             return v
         E['@_ZNSt6chrono3_V212system_clock3nowEv'] = clock
         E['@_ZNSt6chrono3_V212steady_clock3nowEv'] = clock
-        E['@time'] = lambda st, a: s.new_sym(st, 64)
+        def time_(st, a):
+            g = s.gaddr.get('@vk_time_fixed')
+            return s.load(st, g, 8) if g is not None else s.new_sym(st, 64)
+        E['@time'] = time_
         # harness API
         def sym(w):
             def f(st, args): return s.new_sym(st, w)
